@@ -251,6 +251,14 @@ func (m Mapper) NewMutation(data *Info, column string, mutator ovsdb.Mutator, va
 		if err != nil {
 			return nil, err
 		}
+		// the elements are keys of the map: atoms of its key type, so uuids
+		// (and names) go out in uuid notation
+		for i, key := range ovsSet.GoSet {
+			ovsSet.GoSet[i], err = ovsdb.NativeToOvsAtomic(columnSchema.TypeObj.Key.Type, key)
+			if err != nil {
+				return nil, err
+			}
+		}
 		ovsValue = ovsSet
 	} else {
 		ovsValue, err = ovsdb.NativeToOvs(columnSchema, value)
